@@ -25,11 +25,14 @@
 EXTENDS Integers, Sequences, FiniteSets, TLC, Json
 
 CONSTANTS MaxSeq,      \* length of sequences of whole calls
+          MaxPrefix,   \* whole steps before a held step
           Prefixes, Suffixes   \* whole calls allowed before / after a held step
 
 Calls == {"Join", "Leave", "Shutdown", "UpdateNode", "LocalNode", "Members", "NumMembers",
           "SendBestEffort", "SendReliable", "Ping", "GetHealthScore"}
-Background == {"Accuse", "PeerCrash", "Reap"}
+\* background events: an accusation about the node arrives, the peer crashes, aged-out records are
+\* reaped, the node's health score degrades (missed probes / nacks)
+Background == {"Accuse", "PeerCrash", "Reap", "Degrade"}
 Steps == Calls \cup Background
 Gates == [Leave |-> {"leave.afterFlag", "leave.afterRead", "leave.beforeWait"},
           UpdateNode |-> {"update.afterRead", "update.afterInc"},
@@ -78,10 +81,11 @@ Whole(s) ==
 Held(c, g, inner) ==
   /\ ~HasHeld
   /\ \A i \in DOMAIN sched : sched[i].step \in Prefixes
-  /\ Len(sched) <= 1
+  /\ Len(sched) <= MaxPrefix
   /\ g \in Gates[c]
   /\ ~(c = "Leave" /\ stage.shut)             \* would panic before reaching a gate: covered by whole calls
-  /\ inner # c
+  \* inner = c is the overlap of two calls of the same kind (the second blocks on the call's own lock
+  \* until the first is done - or, if that lock is missing, runs while the first is half way)
   /\ sched' = Append(sched, [kind |-> "held", call |-> c, gate |-> g, inner |-> inner,
                              mayPanic |-> (inner = "Leave" /\ c = "Shutdown" /\ g = "shutdown.afterTransport" /\ FALSE),
                              stage |-> StageName(stage)])
